@@ -25,4 +25,12 @@ PROPS["C18"] = {
     "assumptions": ["amd64 without FMA contraction", "float32(math.Sqrt(float64(x))) = SFsqrt at precision 24"],
 }
 
+PROPS["C01"] = {
+    "level_text": "Theorem for every Add/Remove/Flush history over fresh ids and every query/k/threshold/id restriction: the flat model's answer is the exact top-k (ExactTopK: sorted, min(k,|E|) long, no omitted candidate beats a returned one) of the history-defined live, eligible vectors with their bit-exact metric distances; flush invariance and the error characterisation are theorems too. The model is the Gallina transcription of flat_index*.go and is compared bit-for-bit with the code on generated histories at every run.",
+    "level_note": "Trusted: Coq kernel, extraction, harness, float32=SpecFloat; sort.Slice is a sort (ties compared as sets); F32.key order = Go < on non-NaN (checker 1805).",
+    "correspondence": "flat_index.go/flat_index_search.go ~ Model.VecIndex (KFlat)",
+    "assumptions": ["ids are fresh per history (re-use after removal is C06)", "scores finite (no NaN) for the order clauses"],
+    "nontrivial_min_tokens": 30,
+}
+
 NOT_YET = {}
